@@ -110,6 +110,86 @@ def small_scope_trees(ctx):
         yield ["only", deep2, [nz]]
 
 
+def order_twin(rnd, tree, p=1.0):
+    """The same expression with the operands of every commutative node exchanged (with probability p):
+    equal as a set of environments and - after normalisation - structurally equal, but every value
+    set / child tuple is first met in another order."""
+    if not isinstance(tree, list) or not tree:
+        return tree
+    if tree[0] in ("and", "or") and len(tree) == 3:
+        a, b = order_twin(rnd, tree[1], p), order_twin(rnd, tree[2], p)
+        return [tree[0], b, a] if rnd.random() < p else [tree[0], a, b]
+    if tree[0] in ("only", "exclude", "noextras", "str"):
+        return [tree[0], order_twin(rnd, tree[1], p)] + list(tree[2:])
+    return tree
+
+
+_BALLAST_VARS = ["sys_platform", "platform_machine", "implementation_name", "platform_system",
+                 "platform_python_implementation", "platform_version", "os_name"]
+
+
+def _chain(op, items):
+    t = items[0]
+    for x in items[1:]:
+        t = [op, t, x]
+    return t
+
+
+def ballast(rnd, outer, k, tag):
+    """k two-way alternatives over 2k distinct variables joined by `outer` (a k-clause CNF for outer='and',
+    a k-term DNF for 'or'), then combined with itself: such children only come into existence as
+    *results* of an earlier | or &."""
+    inner = "or" if outer == "and" else "and"
+    vs = rnd.sample(_BALLAST_VARS[:-1], min(2 * k, 6))
+    while len(vs) < 2 * k:
+        vs.append(vs[len(vs) % 6])
+    clauses = [[inner, ["m", f'{vs[2 * i]} == "{tag}{i}"'], ["m", f'{vs[2 * i + 1]} == "{tag}{i}x"']] for i in range(k)]
+    b = _chain(outer, clauses)
+    return [inner, b, b]
+
+
+def twin_trees(rnd, n):
+    """Order twins in different operands: a group (or a small compound) G on one side, the same G with its
+    values/children in another order on the other, with self-combined ballast that makes the un-normalised
+    candidate of union()/intersection() the cheapest one."""
+    lits = ["a", "b", "ab", "c"]
+    for i in range(n):
+        outer = rnd.choice(["and", "or"])           # shape of the ballast
+        top = "or" if outer == "and" else "and"     # the operator under test
+        var = rnd.choice(["os_name", "sys_platform", "extra", "platform_machine"])
+        vals = rnd.sample(lits, rnd.choice([2, 2, 3]))
+        if rnd.random() < 0.7:
+            gop, gjoin = ("==", "or") if top == "or" else ("!=", "and")
+        else:
+            gop, gjoin = ("!=", "and") if top == "or" else ("==", "or")
+        g = _chain(gjoin, [["m", f'{var} {gop} "{v}"'] for v in vals])
+        perm = vals[:]
+        while perm == vals:
+            rnd.shuffle(perm)
+        if rnd.random() < 0.5:
+            g2 = _chain(gjoin, [["m", f'{var} {gop} "{v}"'] for v in perm])
+        else:  # one text: the parser builds the group
+            g2 = ["m", f" {gjoin} ".join(f'{var} {gop} "{v}"' for v in perm)]
+        shape = i % 6
+        # sizes are bounded by the library's own cost: a self-combined 4-clause ballast alone takes > 20 s,
+        # and two ballasts of 3 + 2 clauses in one expression likewise
+        k = 2 if shape in (2, 3) else rnd.choice([2, 3, 3])
+        b1, b2 = ballast(rnd, outer, k, "s"), ballast(rnd, outer, 2, "t")
+        x = [top, g, b1]
+        if shape == 0:
+            yield [top, x, g2]
+        elif shape == 1:
+            yield [top, g2, x]
+        elif shape == 2:
+            yield [top, x, [top, g2, b2]]
+        elif shape == 3:
+            yield [top, [top, g2, b2], x]
+        elif shape == 4:
+            yield [top, [top, b1, g], [top, b1, g2]]
+        else:
+            yield [outer, [top, [top, x, g2], ["m", 'python_version >= "3.8"']], ["m", f'{var} {gop} "{vals[0]}"']]
+
+
 def run_trees(ctx, run_tree, *, n_random, max_atoms, unary_p=0.3, small_frac=1.0, cfg=None, seconds=None):
     """run_tree(tree) evaluates one tree (the check supplies monitors/oracles)."""
     rnd = ctx.rnd
@@ -131,6 +211,15 @@ def run_trees(ctx, run_tree, *, n_random, max_atoms, unary_p=0.3, small_frac=1.0
         run_tree(t)
         cnt += 1
     ctx.extra["small_scope_cases"] = cnt
+    ctx.stratum = "twins"
+    n_tw = 0
+    for t in twin_trees(rnd, 24 if ctx.tier == "quick" else 400):
+        if ctx.elapsed() - t_small > (55 if ctx.tier == "quick" else 400):
+            break
+        run_tree(t)
+        n_tw += 1
+    ctx.extra["order_twin_cases"] = n_tw
+    ctx.stratum = "main"
     cfg = cfg or MW.Cfg()
     closure = []
     t0 = ctx.elapsed()
@@ -161,6 +250,14 @@ def run_trees(ctx, run_tree, *, n_random, max_atoms, unary_p=0.3, small_frac=1.0
                 for op in ("and", "or"):
                     run_tree([op, tree, special])
                     run_tree([op, special, tree])
+        if rnd.random() < 0.25 and MW.tree_atoms(tree) <= max_atoms:
+            # the expression against its own order twin, bare and behind self-combined ballast
+            tw = order_twin(rnd, tree, rnd.choice([1.0, 0.5]))
+            op = rnd.choice(["or", "and"])
+            run_tree([op, tree, tw])
+            outer = "and" if op == "or" else "or"
+            if rnd.random() < 0.3 and MW.tree_atoms(tree) <= 4:
+                run_tree([op, [op, tree, ballast(rnd, outer, 2, "s")], tw])
         if rnd.random() < 0.25 and MW.tree_atoms(tree) <= max_atoms - 2:
             closure.append(tree)
             if len(closure) > 100:
